@@ -817,7 +817,7 @@ def _code_objects(code: types.CodeType) -> list[types.CodeType]:
     return out
 
 
-def replay_real(unit: "Unit", thread_bodies: list[Callable[[], Any]], trace: list[tuple[int, str, int]], seg_ends: dict[int, str], timeout_s: float = 15.0, slack_s: float = 0.05) -> dict:
+def replay_real(unit: "Unit", thread_bodies: list[Callable[[], Any]], trace: list[tuple[int, str, int]], seg_ends: dict[int, str], timeout_s: float = 15.0, slack_s: float = 0.15) -> dict:
     """Run ``thread_bodies`` (plain callables that use the *unmodified* repository code and real
     ``threading`` primitives) on genuine threads, forcing the recorded interleaving.
 
